@@ -56,6 +56,7 @@ func c03(c *q.Ctx) {
 	}
 
 	inBlockDistinct(c)
+	poolConflictScan(c)
 	utxoCacheRemove(c)
 	lockKeyExtraction(c)
 	poolReload(c)
@@ -215,4 +216,22 @@ func inBlockDistinct(c *q.Ctx) {
 	if tb != nil {
 		c.MapDedup(tb, "utxo.GenUtxoKey(p1[#down].Transactions[].TxInputs[].FromAddr,p1[#down].Transactions[].TxInputs[].RefTxid,p1[#down].Transactions[].TxInputs[].RefOffset)", q.ToCall("State.doTxInternal"), "walk path: an output cited twice inside one block is rejected before anything is applied", "(#i < len(p1[#down].Transactions))")
 	}
+}
+
+// poolConflictScan (C01, C03, C13): when a block is played, a pending transaction is evicted if the block wrote a key
+// the transaction READ or WROTE at another version - both scans look the block's write map up under the full
+// bucket/key (the map is filled under it: a look-up by the bare key never hits, and a pending reader of an overwritten
+// key stays in the pool, is mined, and the block does not replay).
+func poolConflictScan(c *q.Ctx) {
+	pu := c.Fn("bcs/ledger/xledger/state::(*State).processUnconfirmTxs")
+	if pu == nil {
+		return
+	}
+	pool := "tx.(*Tx).SortUnconfirmedTx(p0.tx)#0[]"
+	for _, side := range []string{"TxInputsExt", "TxOutputsExt"} {
+		key := "newmap<map[string]string>[xmodel.MakeRawKey(" + pool + "." + side + "[].Bucket," + pool + "." + side + "[].Key)]"
+		c.CondCount(pu, "(\"\" == "+key+")", 1, "the block's version of the key is looked up under bucket/key ("+side+")")
+		c.CondCount(pu, "("+key+" == xmodel.MakeVersion(*))", 1, "and compared with the version the pending transaction holds ("+side+")")
+	}
+	c.MapStoreKeys(pu, "newmap<map[string]string>", []string{"xmodel.MakeRawKey(p1.Transactions[].TxOutputsExt[].Bucket,p1.Transactions[].TxOutputsExt[].Key)"}, "the write map is keyed by bucket/key of every key the block writes")
 }
